@@ -5,26 +5,30 @@
 (* set of rows each peer holds.                                             *)
 EXTENDS Naturals, Sequences, FiniteSets, TLC, Json
 CONSTANTS MaxLen, Mode
-VARIABLES has, created, hist
-gvars == <<has, created, hist>>
+VARIABLES has, created, hist, where
+gvars == <<has, created, hist, where>>
 Peer == {"p1", "p2"}
 Row == {"x1", "x2", "x3", "x4"}
 EntOf(x) == IF x \in {"x1", "x2"} THEN "A" ELSE "B"
-GInit == has = [p \in Peer |-> {}] /\ created = {} /\ hist = <<>>
+GInit == has = [p \in Peer |-> {}] /\ created = {} /\ hist = <<>> /\ where = [x \in Row |-> "R1"]
 H(m) == hist' = Append(hist, m)
 Put(p, x) == /\ (x \notin created \/ x \in has[p])
              /\ has' = [has EXCEPT ![p] = @ \cup {x}] /\ created' = created \cup {x}
-             /\ H([op |-> "put", p |-> p, row |-> x, ent |-> EntOf(x)])
+             /\ H([op |-> "put", p |-> p, row |-> x, ent |-> EntOf(x)]) /\ UNCHANGED where
 Stream(p, S) == /\ Cardinality(S) >= 2 /\ S \cap created = {}
                 /\ has' = [has EXCEPT ![p] = @ \cup S] /\ created' = created \cup S
-                /\ H([op |-> "stream", p |-> p, rows |-> S])
+                /\ H([op |-> "stream", p |-> p, rows |-> S]) /\ UNCHANGED where
 Del(p, x) == /\ x \in has[p] /\ has' = [has EXCEPT ![p] = @ \ {x}] /\ UNCHANGED created
-             /\ H([op |-> "del", p |-> p, row |-> x, ent |-> EntOf(x)])
+             /\ H([op |-> "del", p |-> p, row |-> x, ent |-> EntOf(x)]) /\ UNCHANGED where
+\* a row is moved to the other room: both rooms change
+Move(p, x) == /\ x \in has[p] /\ UNCHANGED <<has, created>>
+              /\ where' = [where EXCEPT ![x] = IF @ = "R1" THEN "R2" ELSE "R1"]
+              /\ H([op |-> "move", p |-> p, row |-> x, ent |-> EntOf(x), room |-> where'[x]])
 Pull(p, q, ab) == /\ p # q /\ has[q] # {}
                   /\ has' = [has EXCEPT ![p] = IF ab THEN @ ELSE @ \cup has[q]] /\ UNCHANGED created
-                  /\ H([op |-> "pull", p |-> p, q |-> q, abort |-> ab])
-Day == Len(hist) > 0 /\ hist[Len(hist)].op # "day" /\ UNCHANGED <<has, created>> /\ H([op |-> "day"])
-GNext == \/ \E p \in Peer, x \in Row : Put(p, x) \/ Del(p, x)
+                  /\ H([op |-> "pull", p |-> p, q |-> q, abort |-> ab]) /\ UNCHANGED where
+Day == Len(hist) > 0 /\ hist[Len(hist)].op # "day" /\ UNCHANGED <<has, created, where>> /\ H([op |-> "day"])
+GNext == \/ \E p \in Peer, x \in Row : Put(p, x) \/ Del(p, x) \/ Move(p, x)
          \/ \E p \in Peer, S \in SUBSET Row : Stream(p, S)
          \/ \E p, q \in Peer, ab \in BOOLEAN : Pull(p, q, ab)
          \/ Day
